@@ -34,7 +34,7 @@ CONSTANTS Scope,      \* feature ids that may be chosen
           ChForms,    \* set of <<channel, form>> a route header may take
           PqSet,      \* route path spellings
           ErrSet,     \* seeded structural errors
-          Bases,      \* base contexts: "none" | "pull" | "deliver" | "auto"
+          Bases,      \* base contexts: "none" | "pull" | "deliver" | "auto" (by channel), with suffix "v": plus a vars block
           Orders, Cms \* top-level order classes / comment classes
 
 VARIABLES p,      \* the abstract program built so far
@@ -64,18 +64,22 @@ PullItems(r)    == << It(r, "r.pull", 1, "block", "-", "-", 1), It(r, "r.pull.pa
 DeliverItems(r) == << It(r, "r.deliver", 1, "block", "bare", "-", 1) >>
 PullApiItems    == << It(0, "pull_api", 1, "block", "-", "-", 1), It(0, "pull_api.auth_token", 1, "rep", "bare", "-", 1) >>
 
+WithVars == {"pullv", "deliverv", "autov"}
+
 RouteBase(base, rs, r) ==
-  CASE base = "none"    -> << >>
-    [] base = "pull"    -> PullItems(r)
-    [] base = "deliver" -> DeliverItems(r)
-    [] OTHER            -> IF rs[r].ch = "outbound" THEN DeliverItems(r) ELSE PullItems(r)
+  CASE base = "none"                  -> << >>
+    [] base \in {"pull", "pullv"}       -> PullItems(r)
+    [] base \in {"deliver", "deliverv"} -> DeliverItems(r)
+    [] OTHER                           -> IF rs[r].ch = "outbound" THEN DeliverItems(r) ELSE PullItems(r)
 
 RECURSIVE BaseFrom(_, _, _)
 BaseFrom(base, rs, r) == IF r > Len(rs) THEN << >> ELSE RouteBase(base, rs, r) \o BaseFrom(base, rs, r + 1)
 
+VarsItems(base) == IF base \in WithVars THEN << It(0, "vars", 1, "block", "-", "-", 1) >> ELSE << >>
+
 BaseItems(base, rs) ==
   LET ri == BaseFrom(base, rs, 1)
-  IN IF \E k \in DOMAIN ri : ri[k].f = "r.pull" THEN PullApiItems \o ri ELSE ri
+  IN VarsItems(base) \o (IF \E k \in DOMAIN ri : ri[k].f = "r.pull" THEN PullApiItems \o ri ELSE ri)
 
 -----------------------------------------------------------------------------
 (* Candidate variants of one slot                                           *)
@@ -223,8 +227,9 @@ AddRoute ==
                      path |-> IF p.err = "dup_path" /\ k = 2 THEN "p1" ELSE PathOf(k)]
               rs == Append(p.routes, hd)
               ri == RouteBase(plan.base, rs, k)
-              pa == IF (\E j \in DOMAIN ri : ri[j].f = "r.pull") /\ ~HasItem(Items(p), 0, "pull_api", 1)
-                    THEN PullApiItems ELSE << >>
+              pa == (IF k = 1 THEN VarsItems(plan.base) ELSE << >>) \o
+                    (IF (\E j \in DOMAIN ri : ri[j].f = "r.pull") /\ ~HasItem(Items(p), 0, "pull_api", 1)
+                     THEN PullApiItems ELSE << >>)
           IN p' = [p EXCEPT !.routes = rs, !.items = @ \o pa \o ri]
   /\ UNCHANGED <<last, depth, done, nbase, plan>>
 
